@@ -113,6 +113,7 @@ CONF = {
     "trace": {"module": "CgroupTreeTrace", "cfg": "Trace.cfg"},
     "signature": sig,
     "assumptions": [
+        "memory files: every third leveled segment uses 1000 bytes per abstract unit instead of 1 MiB (neighbouring values closer than a page; the files of the harness are plain files, the kernel's page rounding is not modelled)",
         "cgroup files are plain files under a temp cgroup root (system.NewFileTestUtil): a write the kernel would refuse "
         "(EINVAL/EBUSY) succeeds here, so kernel-side rejection is not modelled",
         "the harness presents a written value the way a kernel shows it (cpu.max '<q> 100000', cpuset ranges, "
